@@ -99,6 +99,21 @@ theorem sched_refines (env : Env) (s : Sched) (op : Op) (hinv : Inv env s) (hop 
   obtain ⟨s', out, h1, h2, h3, h4, _⟩ := step_refines env s op hinv hop hne
   exact ⟨s', out, h1, h2, h3, h4⟩
 
+/-- **`tdma_sched_reset()`**, from every well-formed state and every ring position: all pending work of
+the 24 later frames is gone (also the frame due in 24, the bucket just behind the current one), the work of the
+current frame is kept, nothing runs and 0 callbacks are reported. -/
+theorem reset_clears (env : Env) (s : Sched) (hinv : Inv env s) :
+    ∃ s' out, step env s .reset = .ok (s', out) ∧ Inv env s' ∧
+      abs s' 0 = abs s 0 ∧ (∀ d, d ≠ 0 → abs s' d = []) ∧ out.ran = [] := by
+  obtain ⟨s', out, h1, h2, h3, h4⟩ := sched_refines env s .reset hinv trivial (fun h => by cases h)
+  refine ⟨s', out, h1, h2, ?_, ?_, ?_⟩
+  · rw [h3]; simp only [absOp, Spec.TdmaSched.step, Spec.TdmaSched.reset, if_true]
+  · intro d hd
+    rw [h3]; simp only [absOp, Spec.TdmaSched.step, Spec.TdmaSched.reset, hd, if_false]
+  · have hp : (out.ran.map absItem).Perm [] := h4.2.1
+    have := List.Perm.eq_nil hp
+    exact List.map_eq_nil_iff.mp this
+
 /-- **Refinement of `execute` with callbacks that schedule on the fly.**  In an admissible
 environment `tdma_sched_execute()` never faults, returns the number of callbacks it invoked, and what it
 does is an admissible on-the-fly execution (`Spec.TdmaSched.ExecOnTheFly`): the callbacks invoked are a
